@@ -2,16 +2,25 @@
 
 package serverinterceptors
 
-// C02 driver (thorough tier): calls go through the real UnarySheddingInterceptor in front of a
-// real adaptive shedder (CPU verdict injected, virtual clock). A recording wrapper around the
-// shedder logs every Allow / Pass / Fail the middleware performs; the next handler is gated by
-// the driver, so many requests can be parked in flight while exactly one thing happens at a
-// time. No expectations here: TLC validates the trace against specs/shedder/Shedder.tla
-// (events: reset adv allow pass fail hend -- hend{id}: the request that holds promise id has
-// returned to its caller, id 0: it was shed).
+// C02 driver, request level (both tiers): calls go through the real UnarySheddingInterceptor in
+// front of a real adaptive shedder (CPU verdict injected, virtual clock). A recording wrapper
+// around the shedder logs every Allow / Pass / Fail the interceptor performs; a shim around what
+// the interceptor calls as its handler logs how that handler ended (hdone, in a defer, as
+// observed: nil error / errors.Is DeadlineExceeded / other error / panic); the innermost handler
+// is gated by the driver, so many requests can be parked in flight while exactly one thing
+// happens at a time. No expectations here: TLC validates the trace against
+// specs/shedder/ShedderWrap.tla (events: reset adv hin allow hdone pass fail hend).
+//
+// modes: "plain"  UnarySheddingInterceptor -> handler
+//        "chain"  UnaryRecoverInterceptor -> UnarySheddingInterceptor -> UnaryTimeoutInterceptor(1h)
+//                 -> handler, the order zrpc/server.go sets up (a panic is re-raised by the timeout
+//                 interceptor and recovered outside the shedding interceptor; "cancel" / "timeout"
+//                 end the call through the request context while the handler is still parked)
+//        "nop"    plain, with the shedder of a process whose shedding is disabled
 
 import (
 	"context"
+	"encoding/json"
 	"errors"
 	"fmt"
 	"sync"
@@ -37,17 +46,18 @@ var (
 
 // c02Rec wraps the real shedder and logs what the middleware does with it.
 type c02Rec struct {
-	em     *verifEmitter
-	inner  load.Shedder
-	mu     sync.Mutex
-	next   int
-	lastID int // id of the promise handed out by the latest Allow, 0 if it was shed
+	em    *verifEmitter
+	inner load.Shedder
+	mu    sync.Mutex
+	next  int
+	cur   int // the request being handed to the wrapper
 }
 
 type c02Promise struct {
-	r  *c02Rec
-	id int
-	p  load.Promise
+	r   *c02Rec
+	req int
+	id  int
+	p   load.Promise
 }
 
 func (r *c02Rec) Allow() (load.Promise, error) {
@@ -57,116 +67,330 @@ func (r *c02Rec) Allow() (load.Promise, error) {
 	r.mu.Lock()
 	defer r.mu.Unlock()
 	r.next++
+	r.em.Emit(verifEv{"e": "allow", "r": r.cur, "id": r.next, "ov": ov, "shed": err != nil, "fly": fly, "avg": avg})
 	if err != nil {
-		r.lastID = 0
-		r.em.Emit(verifEv{"e": "allow", "id": r.next, "ov": ov, "shed": true, "fly": fly, "avg": avg})
 		return nil, err
 	}
-	r.lastID = r.next
-	r.em.Emit(verifEv{"e": "allow", "id": r.next, "ov": ov, "shed": false, "fly": fly, "avg": avg})
-	return &c02Promise{r: r, id: r.next, p: p}, nil
+	return &c02Promise{r: r, req: r.cur, id: r.next, p: p}, nil
 }
 
 func (p *c02Promise) Pass() {
 	p.p.Pass()
 	fly, avg, _ := load.VerifC02Peek(p.r.inner)
-	p.r.em.Emit(verifEv{"e": "pass", "id": p.id, "fly": fly, "avg": avg})
+	p.r.em.Emit(verifEv{"e": "pass", "r": p.req, "id": p.id, "fly": fly, "avg": avg})
 }
 
 func (p *c02Promise) Fail() {
 	p.p.Fail()
 	fly, avg, _ := load.VerifC02Peek(p.r.inner)
-	p.r.em.Emit(verifEv{"e": "fail", "id": p.id, "fly": fly, "avg": avg})
+	p.r.em.Emit(verifEv{"e": "fail", "r": p.req, "id": p.id, "fly": fly, "avg": avg})
+}
+
+// c02Ctx is a context the driver ends by hand, with the error of its choice (no wall clock).
+type c02Ctx struct {
+	context.Context
+	done chan struct{}
+	mu   sync.Mutex
+	err  error
+}
+
+func (c *c02Ctx) Done() <-chan struct{} { return c.done }
+func (c *c02Ctx) Err() error {
+	c.mu.Lock()
+	defer c.mu.Unlock()
+	return c.err
+}
+func (c *c02Ctx) Deadline() (time.Time, bool) { return time.Time{}, false }
+func (c *c02Ctx) end(err error) {
+	c.mu.Lock()
+	c.err = err
+	c.mu.Unlock()
+	close(c.done)
 }
 
 type c02Req struct {
-	id      int         // promise id (0: shed)
+	n       int         // request number
+	ctx     *c02Ctx
 	release chan string // what the parked handler should do
 	done    chan struct{}
+	how     string // "ret" | "panic": how the outermost call came back
 }
 
-func TestVerifC02Interceptor(t *testing.T) {
-	em := verifOpen(t)
-	defer em.Close()
+type c02Geo struct {
+	nb  int
+	bd  int64
+	thr int64
+}
+
+// concrete ways a handler ends, by the class the specification talks about
+var c02Outcomes = map[string][]string{
+	"ok":      {"ok"},
+	"failcls": {"deadline", "wrapped", "joined"},
+	"err":     {"err", "status", "statusdl", "canceled"},
+	"panic":   {"panic", "panicerr", "panicdl"},
+}
+
+var c02ErrOther = errors.New("c02 other error")
+
+type c02Sess struct {
+	t      *testing.T
+	em     *verifEmitter
+	mode   string
+	rec    *c02Rec
+	call   func(q *c02Req)
+	parked []*c02Req
+	cur    *c02Req
+	enter  chan *c02Req
+	nreq   int
+}
+
+func c02Install(t *testing.T) func() {
 	logx.Disable()
 	stat.SetReporter(nil)
 	timex.VerifNow = func() time.Duration {
 		return c02Base + time.Duration(c02Rel.Load())*time.Millisecond
 	}
-	defer func() { timex.VerifNow = nil }()
-	defer load.VerifC02SetOverload(func() bool { return c02Ov.Load() })()
+	restore := load.VerifC02SetOverload(func() bool { return c02Ov.Load() })
+	return func() {
+		restore()
+		timex.VerifNow = nil
+	}
+}
+
+func c02NewSess(t *testing.T, em *verifEmitter, mode string, g c02Geo, metrics *stat.Metrics) *c02Sess {
+	s := &c02Sess{t: t, em: em, mode: mode, enter: make(chan *c02Req, 1)}
+	c02Rel.Store(0)
+	opts := []load.ShedderOption{load.WithBuckets(g.nb),
+		load.WithWindow(time.Duration(g.bd) * time.Millisecond * time.Duration(g.nb)), load.WithCpuThreshold(g.thr)}
+	kind := "adaptive"
+	var inner load.Shedder
+	if mode == "nop" {
+		inner = load.VerifC02NewDisabled(opts...)
+		kind = "nop"
+	} else {
+		inner = load.NewAdaptiveShedder(opts...)
+	}
+	s.rec = &c02Rec{em: em, inner: inner}
+	em.Emit(verifEv{"e": "reset", "kind": kind, "nb": g.nb, "bd": g.bd})
+	// the innermost handler: parks until the driver says how to end
+	gated := func(ctx context.Context, req any) (any, error) {
+		q := req.(*c02Req)
+		s.enter <- q
+		switch what := <-q.release; what {
+		case "deadline":
+			return nil, context.DeadlineExceeded
+		case "wrapped":
+			return nil, fmt.Errorf("c02 wrapped: %w", context.DeadlineExceeded)
+		case "joined":
+			return nil, errors.Join(c02ErrOther, context.DeadlineExceeded)
+		case "err":
+			return nil, c02ErrOther
+		case "status":
+			return nil, status.Error(codes.Unavailable, "c02 unavailable")
+		case "statusdl":
+			return nil, status.Error(codes.DeadlineExceeded, "c02 deadline as a status")
+		case "canceled":
+			return nil, context.Canceled
+		case "panic":
+			panic("c02 handler panic")
+		case "panicerr":
+			panic(c02ErrOther)
+		case "panicdl":
+			panic(context.DeadlineExceeded)
+		}
+		return "ok", nil
+	}
+	info := &grpc.UnaryServerInfo{FullMethod: "/c02"}
+	// what the shedding interceptor sees as its handler, with the observation shim around it
+	var behind grpc.UnaryHandler = gated
+	if mode == "chain" {
+		tic := UnaryTimeoutInterceptor(time.Hour)
+		behind = func(ctx context.Context, req any) (any, error) { return tic(ctx, req, info, gated) }
+	}
+	shim := func(ctx context.Context, req any) (val any, err error) {
+		q := req.(*c02Req)
+		defer func() {
+			p := recover()
+			out := "ok"
+			switch {
+			case p != nil:
+				out = "panic"
+			case errors.Is(err, context.DeadlineExceeded):
+				out = "failcls"
+			case err != nil:
+				out = "err"
+			}
+			em.Emit(verifEv{"e": "hdone", "r": q.n, "out": out})
+			if p != nil {
+				panic(p)
+			}
+		}()
+		return behind(ctx, req)
+	}
+	sic := UnarySheddingInterceptor(s.rec, metrics)
+	s.call = func(q *c02Req) {
+		if mode == "chain" {
+			UnaryRecoverInterceptor(q.ctx, q, info, func(ctx context.Context, req any) (any, error) {
+				return sic(ctx, req, info, shim)
+			})
+			return
+		}
+		sic(q.ctx, q, info, shim)
+	}
+	return s
+}
+
+func (s *c02Sess) adv(d int64) {
+	c02Rel.Add(d)
+	s.em.Emit(verifEv{"e": "adv", "d": d})
+}
+
+// start hands a new request to the wrapper and waits until it is parked in its handler or back.
+func (s *c02Sess) start(ov bool) {
+	s.nreq++
+	q := &c02Req{n: s.nreq, release: make(chan string, 1), done: make(chan struct{}),
+		ctx: &c02Ctx{Context: context.Background(), done: make(chan struct{})}}
+	c02Ov.Store(ov)
+	s.rec.cur = q.n
+	s.em.Emit(verifEv{"e": "hin", "r": q.n})
+	go func() {
+		defer close(q.done)
+		defer func() {
+			q.how = "ret"
+			if recover() != nil {
+				q.how = "panic"
+			}
+		}()
+		s.call(q)
+	}()
+	select {
+	case <-s.enter:
+		s.parked = append(s.parked, q)
+	case <-q.done:
+		s.em.Emit(verifEv{"e": "hend", "r": q.n, "how": q.how})
+	case <-time.After(120 * time.Second):
+		s.t.Fatal("c02: call neither reached the handler nor returned")
+	}
+}
+
+// finish lets the i-th parked request end the given way and waits until the wrapper gave control back.
+func (s *c02Sess) finish(i int, what string) {
+	q := s.parked[i]
+	s.parked = append(s.parked[:i], s.parked[i+1:]...)
+	switch what {
+	case "cancel": // the caller goes away: the timeout interceptor answers, the handler stays parked
+		q.ctx.end(context.Canceled)
+	case "timeout":
+		q.ctx.end(context.DeadlineExceeded)
+	default:
+		q.release <- what
+	}
+	select {
+	case <-q.done:
+		s.em.Emit(verifEv{"e": "hend", "r": q.n, "how": q.how})
+	case <-time.After(120 * time.Second):
+		s.t.Fatal("c02: released call did not return")
+	}
+	if what == "cancel" || what == "timeout" {
+		q.release <- "ok" // let the abandoned handler goroutine go (nobody listens to it any more)
+	}
+}
+
+// pick a concrete way to end for an outcome class
+func (s *c02Sess) variant(rnd interface{ Intn(int) int }, class string) string {
+	if s.mode == "chain" && class == "err" && rnd.Intn(3) == 0 {
+		return []string{"cancel", "timeout"}[rnd.Intn(2)]
+	}
+	v := c02Outcomes[class]
+	return v[rnd.Intn(len(v))]
+}
+
+type c02WOp struct {
+	Op  string `json:"op"` // adv | start | finish
+	D   int64  `json:"d"`
+	Ov  bool   `json:"ov"`
+	K   int    `json:"k"`
+	Out string `json:"out"`
+}
+
+var c02Modes = []string{"plain", "chain", "nop"}
+
+// TestVerifC02WrapReplay performs the TLC-generated request-level histories (ShedderWrapImpl, one per
+// distinct reachable model state; model time unit = VERIF_C02_UNIT ms, 3 buckets of 2 units) (every
+// one in plain mode, shared out over the other modes).
+func TestVerifC02WrapReplay(t *testing.T) {
+	em := verifOpen(t)
+	defer em.Close()
+	defer c02Install(t)()
+	rnd := verifRand(61)
+	metrics := stat.NewMetrics("c02")
+	unit := int64(verifEnvInt("VERIF_C02_UNIT", 250))
+	var hists [][]c02WOp
+	for _, raw := range verifInput(t) {
+		var ops []c02WOp
+		if err := json.Unmarshal(raw, &ops); err != nil {
+			t.Fatal(err)
+		}
+		hists = append(hists, ops)
+	}
+	for _, mode := range c02Modes {
+		for hi, ops := range hists {
+			// every history in plain and chain mode, few in nop mode (the seed decides which)
+			if mode == "nop" && (int64(hi)+verifSeed())%8 != 0 {
+				continue
+			}
+			s := c02NewSess(t, em, mode, c02Geo{3, 2 * unit, -1000000000}, metrics)
+			for _, op := range ops {
+				switch op.Op {
+				case "adv":
+					s.adv(op.D * unit)
+				case "start":
+					s.start(op.Ov)
+				case "finish":
+					// the model's k-th parked request; the real shedder may have decided differently
+					if len(s.parked) > 0 {
+						s.finish((op.K-1)%len(s.parked), s.variant(rnd, op.Out))
+					}
+				}
+			}
+			for len(s.parked) > 0 {
+				s.finish(0, "ok")
+			}
+		}
+	}
+}
+
+// TestVerifC02Interceptor: seeded random request-level histories. Per history an outcome profile
+// (mixed / nearly all ok / failure heavy / panic heavy), a wandering in-flight target and a CPU
+// pattern; gaps on bucket edges, window lengths and the cool-off boundary.
+func TestVerifC02Interceptor(t *testing.T) {
+	em := verifOpen(t)
+	defer em.Close()
+	defer c02Install(t)()
 	rnd := verifRand(6)
 	metrics := stat.NewMetrics("c02")
-	type geo struct {
-		nb  int
-		bd  int64
-		thr int64
-	}
-	geos := []geo{{3, 500, -1000000000}, {4, 1000, 999}, {10, 100, -1000000000}, {5, 20, 500}}
+	geos := []c02Geo{{3, 500, -1000000000}, {4, 1000, 999}, {10, 100, -1000000000}, {5, 20, 500}}
 	runs := verifEnvInt("VERIF_C02_WHIST", 40)
-	errOther := errors.New("c02 other error")
+	lo := verifEnvInt("VERIF_C02_WLEN", 150)
+	profiles := [][]string{
+		{"ok", "ok", "ok", "ok", "failcls", "failcls", "err", "err", "panic"},
+		{"ok", "ok", "ok", "ok", "ok", "ok", "ok", "ok", "ok", "ok", "ok", "failcls", "err", "panic"},
+		{"failcls", "failcls", "failcls", "failcls", "ok", "err", "panic"},
+		{"panic", "panic", "panic", "ok", "ok", "failcls", "err"},
+	}
 	for run := 0; run < runs; run++ {
 		g := geos[rnd.Intn(len(geos))]
-		c02Rel.Store(0)
-		inner := load.NewAdaptiveShedder(load.WithBuckets(g.nb),
-			load.WithWindow(time.Duration(g.bd)*time.Millisecond*time.Duration(g.nb)), load.WithCpuThreshold(g.thr))
-		rec := &c02Rec{em: em, inner: inner}
-		em.Emit(verifEv{"e": "reset", "kind": "adaptive", "nb": g.nb, "bd": g.bd})
-		entered := make(chan *c02Req, 1)
-		var cur *c02Req
-		handler := func(ctx context.Context, req any) (any, error) {
-			q := cur
-			entered <- q
-			switch what := <-q.release; what {
-			case "deadline":
-				return nil, context.DeadlineExceeded
-			case "wrapped":
-				return nil, fmt.Errorf("c02 wrapped: %w", context.DeadlineExceeded)
-			case "err":
-				return nil, errOther
-			case "status":
-				return nil, status.Error(codes.Unavailable, "c02 unavailable")
-			case "panic":
-				panic("c02 handler panic")
-			}
-			return "ok", nil
+		mode := c02Modes[run%len(c02Modes)]
+		if mode == "nop" && rnd.Intn(2) == 0 {
+			mode = "plain"
 		}
-		ic := UnarySheddingInterceptor(rec, metrics)
-		var parked []*c02Req
-		start := func() {
-			q := &c02Req{release: make(chan string, 1), done: make(chan struct{})}
-			cur = q
-			go func() {
-				defer close(q.done)
-				defer func() { recover() }()
-				ic(context.Background(), nil, &grpc.UnaryServerInfo{FullMethod: "/c02"}, handler)
-			}()
-			select {
-			case <-entered:
-				q.id = rec.lastID
-				parked = append(parked, q)
-			case <-q.done:
-				em.Emit(verifEv{"e": "hend", "id": 0})
-			case <-time.After(60 * time.Second):
-				t.Fatal("call neither reached the handler nor returned")
-			}
-		}
-		finish := func(i int, what string) {
-			q := parked[i]
-			parked = append(parked[:i], parked[i+1:]...)
-			q.release <- what
-			select {
-			case <-q.done:
-				em.Emit(verifEv{"e": "hend", "id": q.id})
-			case <-time.After(60 * time.Second):
-				t.Fatal("released call did not return")
-			}
-		}
-		outcomes := []string{"ok", "ok", "ok", "ok", "deadline", "wrapped", "err", "status", "panic"}
+		s := c02NewSess(t, em, mode, g, metrics)
+		prof := profiles[rnd.Intn(len(profiles))]
 		target := 2 + rnd.Intn(6)
 		pOv := rnd.Intn(3)
 		lastOv := int64(-1)
-		for step := 0; step < 150+rnd.Intn(150); step++ {
+		steps := lo + rnd.Intn(lo+1)
+		for step := 0; step < steps; step++ {
 			if rnd.Intn(25) == 0 {
 				target = 1 + rnd.Intn(12)
 				pOv = rnd.Intn(3)
@@ -179,23 +403,28 @@ func TestVerifC02Interceptor(t *testing.T) {
 				if d < 1 {
 					d = 1
 				}
-				c02Rel.Add(d)
-				em.Emit(verifEv{"e": "adv", "d": d})
-			case len(parked) <= target && x < 7:
+				s.adv(d)
+			case len(s.parked) <= target && x < 7:
 				ov := pOv == 2 || pOv == 1 && rnd.Intn(2) == 0
-				c02Ov.Store(ov)
 				if ov {
 					lastOv = c02Rel.Load()
 				}
-				start()
+				s.start(ov)
 			default:
-				if len(parked) > 0 {
-					finish(rnd.Intn(len(parked)), outcomes[rnd.Intn(len(outcomes))])
+				if len(s.parked) > 0 {
+					s.finish(rnd.Intn(len(s.parked)), s.variant(rnd, prof[rnd.Intn(len(prof))]))
 				}
 			}
 		}
-		for len(parked) > 0 {
-			finish(0, outcomes[rnd.Intn(len(outcomes))])
+		// drain, then a few requests under CPU load with nothing else in flight
+		for len(s.parked) > 0 {
+			s.finish(0, s.variant(rnd, prof[rnd.Intn(len(prof))]))
+		}
+		for i := 0; i < 3; i++ {
+			s.start(true)
+			for len(s.parked) > 0 {
+				s.finish(0, "ok")
+			}
 		}
 	}
 }
